@@ -9,6 +9,7 @@ from ..core import call_watchdog
 from ..ref import Graph
 
 LEVEL = "exploration"
+TECHNIQUE = "runtime monitoring: generation_meta monitor on every generator return (sys.monitoring, also inside the repository's own tests) judged by component/degree reference model; random-path draws checked as walks along connections"
 RULE = ("every generator over the documented kwargs grid (accessible_cells as count/fraction, max_tree_depth, do_forks, "
         "randomized_stack, start_coord, p) on shapes 1x1..12x12 incl. oblong; generation_meta judged against components/degrees of an "
         "adjacency-set model (visited == component of start; flag => connected, dfs flag iff connected; unflagged => visited recorded; "
